@@ -144,4 +144,16 @@ def run(ctx, fb, cfg):
     # engine resumes: Pause -> start, Delay -> the stream itself
     streams.check_engine_step(ctx, lib, R + "K5.engine-step", [BFS, streams.DFS] if hasattr(streams, "DFS") else [BFS])
     check_step_is_bounded(ctx, lib, R + "K6.step-is-one-step")
+    # a closure unfolding is suspended: Closure::solve is eager, so the body the macro puts inside
+    # the `move ||` must be a conjunction node (whose solve returns a Pause) - never the bare clause
+    if cfg == "lib-default":
+        import C14
+        import macrolib
+
+        S = macrolib.load_sem(ctx, fb)
+        if S is not None:
+            a = macrolib.single_alt(ctx, S, R + "K12.closure-suspends", "Closure")
+            if a is not None:
+                shapes, names, why = C14.CONSTRUCT_TABLE["Closure"]
+                macrolib.check_shape(ctx, R + "K12.closure-suspends", "Closure", a, shapes, names, "the closure body is always wrapped in a conjunction builder, even for a single clause (the conjunction's Pause is what suspends a recursive unfolding)")
     streams.check_engine_delay_iter(ctx, lib, R + "K3.engine-delay")
